@@ -248,7 +248,7 @@ def rule_panic(check):
                 check.ok(R, key, hir.loc(n), "%s -- %s" % (rdesc, reason))
             else:
                 check.bad(R, key, hir.loc(n), "%s can panic: no dominating guard establishes it cannot (guards seen: %s)" % (rdesc, "; ".join(hir.cond_str(c) for c in f.conds_at(n) if c["t"] not in ("closure", "loop"))[:300] or "none"))
-    check.floor(R, "panic obligations", n_ob, 25)
+    check.floor(R, "panic obligations", n_ob, 10)
     # MIR cross-check: arithmetic / bounds asserts and direct panic calls in crate-written bodies
     n_mir = 0
     # arithmetic overflow asserts exist only with overflow checks, i.e. in the dev profile; the shipped
@@ -383,6 +383,66 @@ def _rooted_or_same(f, e, root_local, depth):
     return bool(l and l[0] == root_local) or _rooted_with_field(f, e, root_local, depth)
 
 
+def _descending_cursor_loop(f, loop):
+    """a loop whose cursor - the one shared reference into the tree that it reassigns - only ever moves
+    to a strict sub-part of itself, and whose every iteration ends by moving the cursor, breaking or
+    returning: bounded by the depth of the (finite, immutably borrowed) tree"""
+    if any(n.get("k") == "Continue" for n in hir.walk(loop)):
+        return False
+    body = loop.get("body")
+    if not body or body.get("k") != "Block":
+        return False
+    blk = body
+    if not body["stmts"] and "tail" in body:
+        t = hir.peel(body["tail"])
+        if t.get("k") == "If" and "else" in t and any(x.get("k") == "Break" for x in hir.walk(t["else"])):
+            th = hir.peel(t["then"])
+            blk = th["block"] if th.get("k") == "BlockExpr" else th
+    if blk.get("k") != "Block":
+        return False
+    assigned = {}
+    for n in hir.walk(loop):
+        if n.get("k") in ("Assign", "AssignOp"):
+            l = hir.local_of(n["l"])
+            if l is None:
+                continue
+            assigned.setdefault(l[0], []).append(n)
+    cursors = [v for v in assigned if (f.bindings().get(v, {}).get("ty") or "").startswith("&") and not (f.bindings().get(v, {}).get("ty") or "").startswith("&mut")]
+    if len(cursors) != 1:
+        return False
+    v = cursors[0]
+    for a in assigned[v]:
+        if a.get("k") != "Assign":
+            return False
+        rp = hir.root_path(f, a["r"], stop=(v,))
+        if not (rp and rp[0] == v and len(rp[1]) >= 1):
+            return False
+
+    def covers(e):
+        e = hir.peel(e)
+        k = e.get("k")
+        if k == "Assign":
+            l = hir.local_of(e["l"])
+            return bool(l) and l[0] == v
+        if k in ("Break", "Ret"):
+            return True
+        if k == "BlockExpr":
+            return covers_block(e["block"])
+        if k == "Block":
+            return covers_block(e)
+        if k == "If":
+            return "else" in e and covers(e["then"]) and covers(e["else"])
+        if k == "Match":
+            return all(covers(a["body"]) for a in e["arms"])
+        return False
+
+    def covers_block(b):
+        last = b["tail"] if "tail" in b else (b["stmts"][-1].get("e") if b["stmts"] and b["stmts"][-1]["k"] in ("Expr", "Semi") else None)
+        return last is not None and covers(last)
+
+    return covers_block(blk)
+
+
 def _structural_descent_loop(f, loop):
     from ..prov import value_exprs
 
@@ -471,7 +531,7 @@ def rule_loops(check):
                         if ity.startswith(("std::vec::Vec<", "std::option::Option<", "std::collections::", "[", "std::boxed::Box<[")):
                             ok = True  # an owned or borrowed finite collection, whatever produced it
                     check.expect(ok, R, "%s/for/%s" % (R, T.short(f)), hir.loc(n), "for over finite %s" % desc, "for loop over %s: finiteness not recognised" % desc)
-                elif _structural_descent_loop(f, n):
+                elif _structural_descent_loop(f, n) or _descending_cursor_loop(f, n):
                     check.ok(R, "%s/%s/descent" % (R, T.short(f)), hir.loc(n), "`while let Some(x) = cur`: every iteration replaces cur by None or by a strict sub-part of x (shared borrow of the tree): bounded by the depth of the tree")
                 else:
                     check.bad(R, "%s/%s/%s" % (R, T.short(f), src.split("(")[0].lower() or "loop"), hir.loc(n), "unbounded loop construct (%s) in crate code" % (src or "loop"))
